@@ -190,6 +190,11 @@ func c19CheckMessage(text string) (sig, msg string) {
 	if err := c19ParseExact(enc, &back); err != nil {
 		return "c19 encode-garbage", fmt.Sprintf("EncodeMessage produced %q", enc)
 	}
+	// an encoded message is one line (newline-delimited framing: "messages MUST NOT contain embedded
+	// newlines"), however the text it was decoded from was laid out
+	if bytes.ContainsAny(enc, "\n\r") {
+		return "c19 encoded-message-has-line-break", fmt.Sprintf("EncodeMessage after decoding %q produced %q", text, enc)
+	}
 	// a decoded message is a value of its own: what happens to the bytes it was decoded from afterwards
 	// (a transport reading the next message into the same buffer) does not change it
 	for i := range wire {
@@ -1356,6 +1361,21 @@ func TestVerifC19(t *testing.T) {
 				}
 			}()
 			sig, msg = c19CheckMessage(text)
+			// the same message as a relay or a hand-written client lays it out: indented, one member per
+			// line, with LF or CRLF line ends (raw params/result/error data keep whatever layout they had)
+			for _, layout := range [][2]string{{"\n", "  "}, {"\r\n", "\t"}} {
+				if sig != "" || strings.Contains(text, c19DecoyMark) {
+					break
+				}
+				var pretty bytes.Buffer
+				if json.Indent(&pretty, []byte(text), "", layout[1]) != nil {
+					break
+				}
+				laid := strings.ReplaceAll(pretty.String(), "\n", layout[0])
+				if sig, msg = c19CheckMessage(laid); sig != "" {
+					sig += " (indented input)"
+				}
+			}
 		}()
 		if sig != "" {
 			msgs.Violate(idx, sig, msg, 3)
